@@ -224,6 +224,39 @@ def section(rng):
         out += bytes([(0x80 if i == len(blocks) - 1 else 0) | k]) + be(3, len(body)) + body
     return out
 
+def inflated_sections():
+    """deterministic: every declared count / length inside a block body set far beyond the bytes present
+    (below 2^32-1 so that a reader that trusts the count dies of the allocation oracle, not of the process)"""
+    import random
+    rng = random.Random(7)
+    si = ser_streaminfo(rng)
+    def sec(kind, body, size=None):
+        return b'fLaC' + bytes([0]) + be(3, 34) + si + bytes([0x80 | kind]) + be(3, len(body) if size is None else size) + body
+    out = []
+    bigs = [0x00200000, 0x01000000, 0x04000000, 0x7FFFFFF0]
+    for n in bigs:
+        le = struct.pack('<I', n)
+        # VORBIS_COMMENT: vendor length, field count, field length
+        out.append(('vorbis-vendor-len', sec(4, le)))
+        out.append(('vorbis-count', sec(4, struct.pack('<I', 0) + le)))
+        out.append(('vorbis-count-after-vendor', sec(4, struct.pack('<I', 6) + b'vendor' + le)))
+        out.append(('vorbis-count-one-field', sec(4, struct.pack('<I', 0) + le + struct.pack('<I', 3) + b'A=b')))
+        out.append(('vorbis-field-len', sec(4, struct.pack('<I', 0) + struct.pack('<I', 1) + le)))
+        # PICTURE: mime, description, data lengths
+        out.append(('picture-mime-len', sec(6, be(4, 3) + be(4, n))))
+        out.append(('picture-desc-len', sec(6, be(4, 3) + be(4, 0) + be(4, n))))
+        out.append(('picture-data-len', sec(6, be(4, 3) + be(4, 0) + be(4, 0) + be(4, 1) * 4 + be(4, n))))
+        # the same with a block size that claims the bytes exist
+        out.append(('vorbis-count-size-claims', sec(4, struct.pack('<I', 0) + le, size=min(n, 2 ** 24 - 1))))
+        out.append(('picture-data-size-claims', sec(6, be(4, 3) + be(4, 0) + be(4, 0) + be(4, 1) * 4 + be(4, n), size=min(n, 2 ** 24 - 1))))
+    # CUESHEET: track and index counts at 255 with nothing behind them; SEEKTABLE / APPLICATION / PADDING of maximal declared size
+    cue_head = bytes(128) + be(8, 0) + bytes([0x80]) + bytes(258)
+    out.append(('cue-track-count', sec(5, cue_head + bytes([255]))))
+    out.append(('cue-index-count', sec(5, cue_head + bytes([1]) + be(8, 0) + bytes([1]) + bytes(12) + bytes([0]) + bytes(13) + bytes([255]))))
+    for k in (1, 2, 3):
+        out.append((f'kind{k}-size-max-empty', sec(k, b'', size=2 ** 24 - 1)))
+    return out
+
 def damage(rng, b):
     b = bytearray(b)
     r = rng.random()
@@ -365,6 +398,23 @@ def cue_edge_texts():
         for arg in ['', ' ', '  ', ' 1', ' 01', ' 01 ', ' 01  00:00:00', ' :', ' ::', ' 01 :', ' 01 ::', ' 01 0:0:0', ' 01 00:00',
                     ' 01 00:00:00:00', ' + +', ' +1 +0:+0:+0']:
             out.append((588 * 1000, 'TRACK 01 AUDIO\n' + cmd + arg + '\nINDEX 01 00:00:00\n' + cmd + arg))
+    # capacity corners: a track filled to its last index point (and a sheet to its last track), then one more line
+    def idx(lo, hi, fmt):
+        return ''.join(f'INDEX {i:02} {fmt(i - lo)}\n' for i in range(lo, hi + 1))
+    plain = lambda k: str(k)
+    for lo in (0, 1):
+        full = 'TRACK 01 AUDIO\n' + idx(lo, 255, plain)
+        for extra in ['', 'INDEX 00 300\n', 'INDEX 255 300\n', 'INDEX 256 300\n', 'INDEX 01 300\n', 'INDEX 254 300\n']:
+            out.append((1001, full + extra))
+    cd = lambda k: msf(k * 75)
+    for lo in (0, 1):
+        full = 'TRACK 01 AUDIO\n' + idx(lo, 99, cd)
+        for extra in ['', 'INDEX 00 00:10:00\n', 'INDEX 99 00:10:00\n', 'INDEX 100 00:10:00\n']:
+            out.append((588 * 75 * 4000, full + extra))
+    for last, total, pos in ((99, 588 * 75 * 4000, lambda t: msf(t * 75)), (254, 1000001, lambda t: str(t * 10)), (255, 1000001, lambda t: str(t * 10))):
+        tracks = ''.join(f'TRACK {t:02} AUDIO\nINDEX 01 {pos(t)}\n' for t in range(1, last + 1))
+        for extra in ['', f'TRACK {last + 1} AUDIO\nINDEX 01 {pos(last + 1)}\n', f'TRACK {last} AUDIO\nINDEX 01 {pos(last + 1)}\n']:
+            out.append((total, tracks + extra))
     return out
 
 # ------------------------------------------------------------------------------------------------
